@@ -422,7 +422,7 @@ var _ = redis.NewServer
 
 func init() {
 	run.Register(&run.Prop{
-		ID: "C14", Level: "exploration",
+		ID: "C14", PassiveWatchdog: true, Level: "exploration",
 		Rule: func(tier string) string {
 			return "case = one workload round executed in a child built with the Go race detector (GORACE halt_on_error=0; the parent parses every 'WARNING: DATA RACE' block from the child's stderr and does not trust exit codes): a server with a mutex-guarded reference store as handler on a real loopback listener (every second round also a TLS listener, a third of the connections going through it); 2..32 TCP clients with connection churn, every command family, CONFIG SET/GET on shared and private keys (and, in every sixth round, CONFIG SET/GET of requirepass and CONFIG GET * from the clients), SELECT, AUTH with right and wrong passwords (a third of the rounds require a password), and endings by close, RST, half-close and mid-request cut; two goroutines serving scripted connections through hook H1; a control goroutine enumerating Conns()/ConnByUUID, reading each registered connection's database, authorization, user name, password and span context, and reading configuration; in half of the rounds a goroutine (in a quarter of them two goroutines at once) calling Restart or Stop+Start three to eight times while clients are active (in TLS rounds every other call is preceded by six TLS clients vanishing by reset at that moment); in TLS rounds without lifecycle calls the process's free descriptors are taken away for 130 ms while one client waits in the listen queue of each port, so that both accept loops run through a failing Accept at the same time. Oracle: a report counts iff the innermost non-runtime frame of either access stack is in github.com/cybergarage/go-redis/redis[/...]; reports are reduced to an unordered pair of access functions (line numbers stripped, closures normalised) and de-duplicated; a child dying with 'fatal error: concurrent map ...' is a violation. Self-check: a planted harness-side race must be reported in every run (detector active). distinct = round index (every round is a different seeded workload and schedule)"
 		},
